@@ -332,6 +332,21 @@ func TestVerifC02(t *testing.T) {
 			i++
 		}
 	}
+	// the same search for strategies selected at run time (SetStrategy, what the admin API calls)
+	// instead of in the configuration: whatever the balancer remembers about "its" strategy must
+	// follow the switch (pools of 1..2 in the quick tier)
+	kitViaSwitch = true
+	for _, strat := range allStrategies {
+		for n := 1; n <= 2+map[bool]int{true: 1}[vres.Thorough()]; n++ {
+			if vh.MyShard(i) {
+				sp := c02Spec(c02Params{strat, n}, depth)
+				sp.Name += "-selected-at-run-time"
+				vh.RunH(r, "TestVerifC02", sp)
+			}
+			i++
+		}
+	}
+	kitViaSwitch = false
 	// the statement's product "every subset of ejected backends x every in-flight-count vector":
 	// the history search holds at most a few requests in flight; here every backend carries a
 	// common load on both sides of every plausible per-backend bound (injected into the gauges),
